@@ -80,7 +80,7 @@ pub async fn main() -> Result<(), Box<dyn std::error::Error>> {
     let listener = TcpListener::bind(&config.observability.metrics_exporter_listen).await?;
     let mut buf = String::with_capacity(4 * 1024);
 
-    loop {
+    'accept: loop {
         let (mut tcp_stream, _) = listener.accept().await?;
 
         // Wait until a request was sent, dropping the bytes read when this scope ends
@@ -90,7 +90,18 @@ pub async fn main() -> Result<(), Box<dyn std::error::Error>> {
             let mut buf = [0u8; 2048];
             let mut bytes_read = 0;
             loop {
-                bytes_read += tcp_stream.read(&mut buf[bytes_read..]).await?;
+                let n = match tcp_stream.read(&mut buf[bytes_read..]).await {
+                    Ok(0) => {
+                        tracing::warn!("Metrics connection closed before a full request was received");
+                        continue 'accept;
+                    }
+                    Ok(n) => n,
+                    Err(e) => {
+                        tracing::warn!("Metrics connection read error: {e}");
+                        continue 'accept;
+                    }
+                };
+                bytes_read += n;
 
                 // The headers end with two CRLFs in a row
                 if buf[0..bytes_read].windows(4).any(|w| w == b"\r\n\r\n") {
@@ -101,7 +112,7 @@ pub async fn main() -> Result<(), Box<dyn std::error::Error>> {
                 // If we have not found the end yet, we are not going to
                 if bytes_read >= buf.len() {
                     tracing::warn!("Metrics connection request too long");
-                    continue;
+                    continue 'accept;
                 }
             }
 
@@ -113,10 +124,8 @@ pub async fn main() -> Result<(), Box<dyn std::error::Error>> {
         }
 
         buf.clear();
-        match handler(&mut buf, &observation_socket_path).await {
-            Ok(()) => {
-                tcp_stream.write_all(buf.as_bytes()).await?;
-            }
+        let result = match handler(&mut buf, &observation_socket_path).await {
+            Ok(()) => tcp_stream.write_all(buf.as_bytes()).await,
             Err(e) => {
                 log::warn!("error: {e}");
                 const ERROR_REPONSE: &str = concat!(
@@ -125,8 +134,13 @@ pub async fn main() -> Result<(), Box<dyn std::error::Error>> {
                     "content-length: 0\r\n\r\n",
                 );
 
-                tcp_stream.write_all(ERROR_REPONSE.as_bytes()).await?;
+                tcp_stream.write_all(ERROR_REPONSE.as_bytes()).await
             }
+        };
+
+        // A client that went away must not take the exporter down with it
+        if let Err(e) = result {
+            log::warn!("could not write metrics response: {e}");
         }
     }
 }
